@@ -15,12 +15,24 @@ Theorem c11_tdigest_reserialize : forall s s', wfb s -> tdb_dec false (tdb_enc s
 Proof. intros s s' W H. rewrite (tdb_roundtrip s W) in H. inversion H. reflexivity. Qed.
 
 (* non-vacuity: k = 100, reverse_merge set, centroids (1.0, w1) (2.5, w7) (4.0, w1), min 1.0, max 4.0 *)
+Definition c11_example_state : tdb :=
+  mkTdb 100 true 0x3ff0000000000000 0x4010000000000000
+        [(0x3ff0000000000000, 1); (0x4004000000000000, 7); (0x4010000000000000, 1)] 9 [].
+
 Example c11_tdigest_example :
-  let s := mkTdb 100 true 0x3ff0000000000000 0x4010000000000000
-             [(0x3ff0000000000000, 1); (0x4004000000000000, 7); (0x4010000000000000, 1)] 9 [] in
-  wfb s /\ length (tdb_enc s) = 80%nat /\ tdb_dec false (tdb_enc s) = Ok s.
+  wfb c11_example_state /\ length (tdb_enc c11_example_state) = 80%nat /\
+  tdb_dec false (tdb_enc c11_example_state) = Ok c11_example_state.
 Proof.
-  cbv zeta. split; [|split; [reflexivity|vm_compute; reflexivity]].
-  constructor; cbn [b_k b_rev b_min b_max b_cs b_cw b_buf]; try (vm_compute; intuition (try discriminate; try reflexivity; try lia)).
-  - repeat constructor; vm_compute; try reflexivity; discriminate.
+  split; [|split; vm_compute; reflexivity].
+  constructor; unfold c11_example_state; cbn [b_k b_rev b_min b_max b_cs b_cw b_buf].
+  - split; [apply (proj1 (N.leb_le _ _))|apply (proj1 (N.ltb_lt _ _))]; vm_compute; reflexivity.
+  - reflexivity.
+  - repeat constructor; cbn [fst snd];
+      first [apply (proj1 (N.ltb_lt _ _)); vm_compute; reflexivity | apply (proj1 (N.leb_le _ _)); vm_compute; reflexivity | vm_compute; reflexivity].
+  - apply (proj1 (N.ltb_lt _ _)); vm_compute; reflexivity.
+  - split; [vm_compute; reflexivity|apply (proj1 (N.ltb_lt _ _)); vm_compute; reflexivity].
+  - split; [apply (proj1 (N.ltb_lt _ _)); vm_compute; reflexivity|vm_compute; reflexivity].
+  - split; [apply (proj1 (N.ltb_lt _ _)); vm_compute; reflexivity|vm_compute; reflexivity].
+  - discriminate.
+  - discriminate.
 Qed.
